@@ -346,13 +346,13 @@ C05_T = {"BigIds": "{0, 1, 2, 14, 15, 16, 255}", "BigLens": "{0, 1, 3, 4, 16, 17
 
 def rand_c05(seed, tier, cases=None):
     rng = random.Random(seed * 7919 + 5)
-    starts = ["fresh", "onebyte", "twobyte", "legacy", "um_onebyte", "um_twobyte", "um_legacy"]
+    starts = ["fresh", "onebyte", "twobyte", "legacy", "um_onebyte", "um_twobyte", "um_legacy", "um_dup"]
     out = []
     for _ in range(4000 if tier == "quick" else 60000):
         n = rng.randint(1, 10)
         ops = []
         for j in range(n):
-            ident = rng.choice([0, 1, 2, 3, 5, 14, 15, 16, 200, 255])
+            ident = rng.choice([0, 1, 2, 3, 5, 5, 7, 14, 15, 16, 200, 255])
             k = rng.random()
             if k < 0.12:
                 ops.append(dict(op="setfrom", id=ident, len=0, salt=j + 1, src=rng.choice([1, 2, 3, 5, 14, 200])))
@@ -674,7 +674,7 @@ prop(dict(
 
 
 # ---------------------------------------------------------------- C09
-C09_KINDS = ["h264", "h264_avc", "h265", "h265_donl", "vp8", "vp9", "av1", "av1_legacy", "opus", "h265_single", "h265_single_donl", "h265_fu", "h265_fu_donl", "h265_ap", "h265_ap_donl", "h265_paci"]
+C09_KINDS = ["h264", "h264_avc", "h265", "h265_donl", "vp8", "vp9", "av1", "av1_legacy", "opus", "h265_single", "h265_single_donl", "h265_fu", "h265_fu_donl", "h265_ap", "h265_ap_donl", "h265_paci", "h265_toggle"]
 
 
 def rand_c09(seed, tier, cases=None):
